@@ -24,6 +24,7 @@ func BuildF2L(tree []*cf, pos string) *Case {
 		Global{Name: "inp", Space: "storage", Ty: inT, Group: 0, Binding: 0},
 		Global{Name: "out", Space: "storage", RW: true, Ty: outT, Group: 0, Binding: 1},
 		Global{Name: "acc", Space: "private", Ty: TU32},
+		Global{Name: "hcalls", Space: "private", Ty: TU32},
 	)
 	gi := L("gi", TU32)
 	b := &f2b{pos: pos}
@@ -41,7 +42,12 @@ func BuildF2L(tree []*cf, pos string) *Case {
 	comb := func() Expr {
 		return &Bin{Op: "+", L: &Bin{Op: "*", L: la(), R: LitU(31), Ty: TU32}, R: &Bin{Op: "*", L: lb(), R: LitU(17), Ty: TU32}, Ty: TU32}
 	}
+	// h also keeps a counter of its own in a private variable that nothing else names: the only static path to
+	// that global is the call of h, wherever the tree places it
+	hx := func() Expr { return V("hcalls", TU32) }
 	h := &Func{Name: "h", Params: []Param{{Name: "x", Ty: TU32}}, Body: []Stmt{
+		&Assign{LHS: hx(), Op: "=", RHS: &Bin{Op: "+", L: hx(), R: LitU(1), Ty: TU32}},
+		&Assign{LHS: accPriv(), Op: "=", RHS: &Bin{Op: "+", L: accPriv(), R: hx(), Ty: TU32}},
 		&If{Cond: &Bin{Op: "==", L: L("x", TU32), R: LitU(1), Ty: TBool}, Then: []Stmt{
 			&Assign{LHS: accPriv(), Op: "=", RHS: &Bin{Op: "+", L: &Bin{Op: "*", L: accPriv(), R: LitU(31), Ty: TU32}, R: LitU(1000), Ty: TU32}},
 			&Return{},
